@@ -247,6 +247,7 @@ pub enum Proj {
     IdV,
 }
 pub const PROJS: [Proj; 7] = [Proj::Full, Proj::V, Proj::SV, Proj::SOnly, Proj::Sql, Proj::VAddr, Proj::IdV];
+pub const PROJS_NO_ADDR: [Proj; 6] = [Proj::Full, Proj::V, Proj::SV, Proj::SOnly, Proj::Sql, Proj::IdV];
 
 pub fn proj_request(ds: &Dataset, p: Proj) -> ProjectionRequest {
     match p {
@@ -363,6 +364,10 @@ fn gen_offsets(rng: &mut Rng, snap: &Snap) -> (Vec<u64>, &'static str) {
         bounds.push(acc);
     }
     let pick_in = |rng: &mut Rng| if n == 0 { 0 } else { rng.below(n) };
+    if bounds.is_empty() {
+        // a table without fragments: every offset is out of range
+        return ((0..rng.below(3)).collect(), "no-fragments");
+    }
     match rng.below(12) {
         0 => {
             let start = pick_in(rng);
@@ -432,6 +437,9 @@ fn gen_offsets(rng: &mut Rng, snap: &Snap) -> (Vec<u64>, &'static str) {
 
 fn gen_addrs(rng: &mut Rng, snap: &Snap) -> (Vec<u64>, &'static str) {
     let live: Vec<u64> = snap.rows.iter().map(|r| r.addr).collect();
+    if snap.frags.is_empty() {
+        return ((0..rng.below(3)).map(|i| (i << 32) + 1).collect(), "no-fragments");
+    }
     let frag = |rng: &mut Rng| rng.pick(&snap.frags).clone();
     match rng.below(10) {
         0 | 1 => {
@@ -617,7 +625,9 @@ pub async fn check_state(t: &mut Tbl, st: &mut Streams, sink: &mut Sink, rng: &m
         if !t.stable {
             let (addrs, kind) = gen_addrs(rng, &snap);
             let wra = rng.chance(1, 4);
-            let p = *rng.pick(&PROJS);
+            // with_row_address(true) on a projection that already has _rowaddr is a usage error
+            // ("Can not append column _rowaddr"): not generated.
+            let p = if wra { *rng.pick(&PROJS_NO_ADDR) } else { *rng.pick(&PROJS) };
             sink.count(&format!("addrs:{kind}"));
             let in_bounds = |a: &u64| snap.frags.iter().any(|(id, phys, _)| *id == a >> 32 && (a & 0xffff_ffff) < *phys);
             let all_in_bounds = addrs.iter().all(in_bounds);
@@ -672,7 +682,7 @@ pub async fn check_state(t: &mut Tbl, st: &mut Streams, sink: &mut Sink, rng: &m
             }
             sink.count(&format!("ids:{kind}"));
             let wra = rng.chance(1, 5);
-            let p = *rng.pick(&PROJS);
+            let p = if wra { *rng.pick(&PROJS_NO_ADDR) } else { *rng.pick(&PROJS) };
             let expected: Vec<&Row> = ids.iter().filter_map(|a| by_id.get(a).copied()).collect();
             let ds = Arc::new(t.ds.clone());
             let i2 = ids.clone();
@@ -752,14 +762,27 @@ pub async fn check_state(t: &mut Tbl, st: &mut Streams, sink: &mut Sink, rng: &m
 }
 
 /// Known-finding class of a panicking `take(offsets)`, decided from the INPUT only.
-fn take_panic_class(_offs: &[u64], _n: u64) -> Option<&'static str> {
-    None
+/// Class `oob_offset_not_last` (Known_C15_oob_offset_not_last in Core/Model_Take.v): some offset other
+/// than the last requested one is >= the number of rows. Its tombstone address u64::MAX then reaches
+/// `last_offset + 1` in check_row_addrs (take.rs) — overflow panic in debug builds.
+fn take_panic_class(offs: &[u64], n: u64) -> Option<&'static str> {
+    if offs.len() >= 2 && offs[..offs.len() - 1].iter().any(|o| *o >= n) {
+        Some("oob_offset_not_last")
+    } else {
+        None
+    }
 }
 
 pub fn run(args: &Args, sink: &mut Sink, rng: &mut Rng) {
     let rt = tokio::runtime::Builder::new_multi_thread().worker_threads(4).enable_all().build().unwrap();
     let prev = std::panic::take_hook();
-    std::panic::set_hook(Box::new(|_| {}));
+    // implementation panics happen on worker tasks (see `guarded`) and are recorded as outcomes;
+    // a panic on the main thread is a harness bug and must be visible.
+    std::panic::set_hook(Box::new(|info| {
+        if std::thread::current().name() == Some("main") {
+            eprintln!("hx_c15 harness panic: {info}");
+        }
+    }));
     let mut st = Streams {
         scan: Stream::new("scan", REQ, "chk_scan", "frags_in", "list N"),
         offs2addr: Stream::new("offs2addr", REQ, "chk_offs2addr", "frags_in * list N", "outcome (list N)"),
